@@ -1,6 +1,7 @@
 import Driver.Util
 import BitcaskVerif.Store.Codec
 import BitcaskVerif.Store.Spec
+import BitcaskVerif.Store.FaultModel
 
 namespace Driver
 open Store
@@ -32,6 +33,7 @@ structure SS where
   trace : List Call := []
   keys : List Key := []
   known : List Key := []     -- every key ever written (merge iteration covers these)
+  fault : Option Store.Tr.Fault := none   -- fault that hits the next put / del (C20)
 
 def fname (f : FName) : String :=
   (match f.kind with | .data => "d" | .hint => "h") ++ toString f.id
@@ -179,15 +181,34 @@ def storeStep (ss : SS) (toks : List String) : Option (SS × String) :=
     let (s, calls) := openDisk ss.st.disk
     some (addCalls { ss with st := s, opened := true } calls, "ok" ++ traceSuffix ss calls)
   | ["close"] => some ({ ss with opened := false }, "ok" ++ traceSuffix ss [])
+  | ["mfault", kind] =>
+    -- the next put / del fails in the given way (kinds as in Store/FaultModel.lean)
+    let f : Option Store.Tr.Fault := match kind.splitOn ":" with
+      | ["small"] => some .appendSmall
+      | ["large", n] => n.toNat?.map .appendLarge
+      | ["fsync"] => some .fsync
+      | ["create"] => some .create
+      | _ => none
+    f.map fun f => ({ ss with fault := some f }, "ok")
   | ["put", k, v] =>
     match bytesOfHex k, valTok v with
     | some k, some v =>
+      if let some f := ss.fault then
+        let (s, _) := Store.Tr.putF ss.cfg ss.st 0 k v (some f)
+        let e := match f with | .appendSmall | .appendLarge _ => "err serialization" | _ => "err io"
+        some (noteKey { ss with st := s, fault := none } k, e)
+      else
       let (s, calls) := put ss.cfg ss.st 0 k v
       some (addCalls (noteKey { ss with st := s } k) calls, "ok" ++ traceSuffix ss calls)
     | _, _ => none
   | ["del", k] =>
     match bytesOfHex k with
     | some k =>
+      if let some f := ss.fault then
+        let (s, _) := Store.Tr.deleteF ss.cfg ss.st 0 k (some f)
+        let e := match f with | .appendSmall | .appendLarge _ => "err serialization" | _ => "err io"
+        some ({ ss with st := s, fault := none }, e)
+      else
       let (s, b, calls) := delete ss.cfg ss.st 0 k
       some (addCalls { ss with st := s } calls, toString b ++ traceSuffix ss calls)
     | none => none
